@@ -1094,13 +1094,16 @@ REALNVP_OPTS = [
     # resampled (LARS) base distribution: its normalisation constant is re-estimated by FlowModel.finalise() after the best
     # weights have been restored; more epochs so that the acceptance network learns something (seeded change C08-eA)
     {"distribution": "lars", "_epochs": 30},
+    # dropout inside the LARS acceptance network and inside the coupling networks: active while training, it has to be off
+    # whenever a density is reported (eval mode must reach every sub-module; seeded change C08-fA)
+    {"distribution": "lars", "distribution_kwargs": {"net_kwargs": {"dropout_probability": 0.25}}, "_epochs": 10},
+    {"batch_norm_within_layers": True, "dropout_probability": 0.2},
 ]
 REALNVP_MORE = [
     {"mask": [[1, -1], [-1, 1]], "linear_transform": None, "_blocks": 2},
     {"pre_transform": "batch_norm", "pre_transform_kwargs": {"eps": 1e-8}},
     {"scale_activation": "sigmoid"},
     {"net": "mlp", "batch_norm_within_layers": True, "dropout_probability": 0.5},
-    {"batch_norm_within_layers": True, "dropout_probability": 0.2},
     {"distribution": "normal"},
     {"distribution": "uniform", "batch_norm_between_layers": False},
     {"linear_transform": "lu", "batch_norm_between_layers": False, "actnorm": True},
